@@ -12,6 +12,10 @@ SRC = os.path.join(REPO, "src")
 PKG = "psyclone"
 
 
+_PARSE_CACHE = {}
+_IMPORT_CACHE = {}
+
+
 class AnalysisError(Exception):
     """The analysis cannot give a verdict (anchor vanished, construct outside
     the interpretable subset, instance count below the frozen floor)."""
@@ -24,12 +28,19 @@ class ModuleInfo:
         self.tree = tree
         self.text = text
         self.is_pkg = is_pkg
-        self.lines = text.splitlines()
+        self._lines = None
+        self._ckey = None
         # local name -> dotted target ("psyclone.x.y.Name" or module name)
         self.imports = {}
         self.classes = {}    # name -> ClassInfo
         self.functions = {}  # name -> ast.FunctionDef
         self.assigns = {}    # module-level NAME -> ast value node
+
+    @property
+    def lines(self):
+        if self._lines is None:
+            self._lines = self.text.splitlines()
+        return self._lines
 
     @property
     def relpath(self):
@@ -81,9 +92,13 @@ def _deco_name(node):
 class RepoIndex:
     """Parsed view of the repository."""
 
-    def __init__(self, src=SRC, pkg=PKG):
+    def __init__(self, src=SRC, pkg=PKG, overlay=None):
+        """overlay: {repo-relative path: replacement source text} - used by
+        the checker self-test to analyse a variant of the tree without
+        writing it anywhere."""
         self.src = src
         self.pkg = pkg
+        self.overlay = overlay or {}
         self.modules = {}     # dotted name -> ModuleInfo
         self.by_path = {}
         self.classes = {}     # qname -> ClassInfo
@@ -106,8 +121,12 @@ class RepoIndex:
                 if not fname.endswith(".py"):
                     continue
                 path = os.path.join(dirpath, fname)
-                with open(path, encoding="utf-8") as fin:
-                    text = fin.read()
+                relrepo = os.path.relpath(path, REPO)
+                if relrepo in self.overlay:
+                    text = self.overlay[relrepo]
+                else:
+                    with open(path, encoding="utf-8") as fin:
+                        text = fin.read()
                 hasher.update(path.encode())
                 hasher.update(text.encode())
                 rel = os.path.relpath(path, self.src)[:-3]
@@ -116,18 +135,27 @@ class RepoIndex:
                 if is_pkg:
                     parts = parts[:-1]
                 name = ".".join(parts)
-                try:
-                    tree = ast.parse(text, filename=path)
-                except SyntaxError as err:
-                    raise AnalysisError(f"{path}: does not parse: {err}")
+                ckey = (path, hashlib.sha1(text.encode()).hexdigest())
+                tree = _PARSE_CACHE.get(ckey)
+                if tree is None:
+                    try:
+                        tree = ast.parse(text, filename=path)
+                    except SyntaxError as err:
+                        raise AnalysisError(
+                            f"{path}: does not parse: {err}")
+                    _PARSE_CACHE[ckey] = tree
                 mod = ModuleInfo(name, path, tree, text, is_pkg)
+                mod._ckey = ckey
                 self.modules[name] = mod
                 self.by_path[os.path.relpath(path, REPO)] = mod
                 self._scan_module(mod)
         self.digest = hasher.hexdigest()
 
     def _scan_module(self, mod):
-        for stmt in ast.walk(mod.tree):
+        cached = _IMPORT_CACHE.get(mod._ckey)
+        if cached is not None:
+            mod.imports = dict(cached)
+        for stmt in (ast.walk(mod.tree) if cached is None else ()):
             # imports anywhere in the module (function-level imports are
             # common in PSyclone to avoid cycles)
             if isinstance(stmt, ast.Import):
@@ -150,6 +178,7 @@ class RepoIndex:
                         continue
                     local = alias.asname or alias.name
                     mod.imports.setdefault(local, base + "." + alias.name)
+        _IMPORT_CACHE[mod._ckey] = dict(mod.imports)
         for stmt in mod.tree.body:
             self._scan_toplevel(mod, stmt)
 
